@@ -6,6 +6,7 @@ package main
 import (
 	"fmt"
 	"go/ast"
+	"go/constant"
 	"go/token"
 	"go/types"
 	"sort"
@@ -18,7 +19,10 @@ type TableEntry struct {
 	K   *Term   // key (maps) or nil (slices: index = position)
 	V   *Term   // scalar value, or nil when nested
 	Sub []*Term // nested slice literal of scalars
-	Src string
+	// the same nested literal as constants (turned into terms at the point of
+	// use: the sort of a float depends on the float model of the function)
+	SubC []constant.Value
+	Src  string
 }
 
 type Table struct {
@@ -132,6 +136,7 @@ func (p *Program) loadTable(td *TableDecl) error {
 					return err
 				}
 				ent.Sub = append(ent.Sub, v)
+				ent.SubC = append(ent.SubC, pk.TypesInfo.Types[se].Value)
 			}
 		} else {
 			v, err := constOf(val, elemT)
@@ -457,6 +462,9 @@ func (p *Program) tableAliasWriters(tb *Table) []string {
 		for _, b := range f.Blocks {
 			for _, ins := range b.Instrs {
 				if st, ok := ins.(*ssa.Store); ok && st.Addr == ssa.Value(a) {
+					if ld, isLoad := st.Val.(*ssa.UnOp); isLoad && ld.X == ssa.Value(a) {
+						continue // the variable assigned to itself (named result at a return)
+					}
 					if _, ok := st.Val.(*ssa.MakeMap); !ok {
 						return false
 					}
@@ -493,6 +501,12 @@ func (p *Program) tableAliasWriters(tb *Table) []string {
 					}
 				}
 			}
+			continue
+		}
+		if !tb.IsMap {
+			// a [][]T table is read as an ordinary heap value whose shape and cells are assumed equal to
+			// the literal on every load of the global; it may be stored in a field. Only direct writes
+			// through the global are scanned (tableWriters): writes through an alias are an assumption.
 			continue
 		}
 		// nested table: taint the table value and the rows
@@ -631,4 +645,54 @@ func describeTable(tb *Table) string {
 	var sb strings.Builder
 	fmt.Fprintf(&sb, "%s (%d entries)", tb.Name, len(tb.Entries))
 	return sb.String()
+}
+
+// linkMapTable: a map table may escape into the heap (stored in a field and
+// read back later through the ordinary map heaps). On every load of the global
+// the map heaps at the table's reference are assumed to agree with the literal.
+// Justified by the immutability of the table (obligation table.<name>#immutable).
+func (fc *FuncCtx) linkMapTable(st *State, tb *Table) {
+	mt := tb.Typ.Underlying().(*types.Map)
+	if sortOf(mt.Elem()) == SSlice || sortOf(mt.Elem()) == nil {
+		return
+	}
+	hd, hv, hl := fc.p.mapHeaps(mt)
+	k := BVar("tk?"+tb.Name, sortOf(mt.Key()))
+	d := Select(Select(st.H(fc.p, hd), tb.Ref), k)
+	v := Select(Select(st.H(fc.p, hv), tb.Ref), k)
+	st.assume(And(
+		Lt(IntLit(0), tb.Ref), Le(tb.Ref, fc.entry.alloc),
+		Eq(Select(st.H(fc.p, hl), tb.Ref), IntLit(int64(len(tb.Entries)))),
+		Forall([]*Term{k}, Eq(d, tb.domTerm(k)), []*Term{d}),
+		Forall([]*Term{k}, Eq(v, tb.valTerm(k)), []*Term{v})))
+}
+
+// linkNestedTable: a [][]T table is read as an ordinary heap value v whose
+// shape and cells are assumed to be those of the literal (ground facts).
+func (fc *FuncCtx) linkNestedTable(st *State, tb *Table, v *Term) {
+	outer := tb.Typ.Underlying().(*types.Slice)
+	inner := outer.Elem().Underlying().(*types.Slice)
+	hOuter := fc.p.elemHeap(outer.Elem())
+	hInner := fc.p.elemHeap(inner.Elem())
+	facts := []*Term{Eq(SLen(v), IntLit(int64(len(tb.Entries)))), Lt(IntLit(0), SBase(v)), Le(SBase(v), fc.entry.alloc)}
+	for i, e := range tb.Entries {
+		row := At(Select(st.H(fc.p, hOuter), SBase(v)), SOff(v), IntLit(int64(i)))
+		facts = append(facts, Eq(SLen(row), IntLit(int64(len(e.SubC)))), Lt(IntLit(0), SBase(row)), Le(SBase(row), fc.entry.alloc))
+	}
+	// cells: one pattern-guarded fact "cell (i, j) is the literal's value" (nested if-then-else over i and j)
+	bi, bj := BVar("ti?"+tb.Name, SInt), BVar("tj?"+tb.Name, SInt)
+	rowb := At(Select(st.H(fc.p, hOuter), SBase(v)), SOff(v), bi)
+	cellb := At(Select(st.H(fc.p, hInner), SBase(rowb)), SOff(rowb), bj)
+	val := zeroOf(inner.Elem())
+	for i := len(tb.Entries) - 1; i >= 0; i-- {
+		e := tb.Entries[i]
+		in := zeroOf(inner.Elem())
+		for j := len(e.SubC) - 1; j >= 0; j-- {
+			in = Ite(Eq(bj, IntLit(int64(j))), constTerm(e.SubC[j], inner.Elem()), in)
+		}
+		val = Ite(Eq(bi, IntLit(int64(i))), in, val)
+	}
+	rng := And(Le(IntLit(0), bi), Lt(bi, IntLit(int64(len(tb.Entries)))), Le(IntLit(0), bj), Lt(bj, tb.subLen(bi)))
+	facts = append(facts, Forall([]*Term{bi, bj}, Implies(rng, Eq(cellb, val)), []*Term{cellb}))
+	st.assume(And(facts...))
 }
